@@ -513,7 +513,10 @@ class Interstitial(object):
             for c, d in itertools.product(range(self.dim), repeat=2):
                 Dp[:, :, c, d] += np.tensordot(gamma_i, biasP_i[:, :, c, d], ((0), (0))) + \
                                   np.tensordot(biasP_i[:, :, c, d], gamma_i, ((0), (0)))
-            Dp += np.tensordot(np.tensordot(self.VV, gamma_v, ((3), (0))), dg, ((2), (0)))
+            # gamma.domega.gamma, contracted site by site: domega carries the strain indices and does not have the
+            # symmetry of the crystal, so it cannot be reduced to (VV outer product) x (scalar in the vector basis)
+            # unless all the basis vectors are parallel
+            Dp += np.einsum('ia,ijcd,jb->abcd', gamma_i, domega_ij, gamma_i)
 
         for a, b, c, d in itertools.product(range(self.dim), repeat=4):
             if a == c:
